@@ -85,7 +85,7 @@ pub fn request_params_at(kind: &str, uri: &str, line: usize, character: usize) -
 /// thread is blocked. Err(Some(failure)) = deadlock, Err(None) = inconclusive.
 /// `expected_spawns`: the number of tasks the messages sent so far make the server spawn at least (one for
 /// every didOpen/didChange with a text, one for every request); 0 = not known.
-pub fn await_or_diagnose(c: &mut Client, id: i64, what: &str, patience: Duration, sched: &Sched, expected_spawns: u64) -> Result<Value, Option<Failure>> {
+pub fn await_or_diagnose(c: &mut Client, id: i64, what: &str, patience: Duration, sched: &Sched, expected_spawns: u64, requests_in_flight: u64) -> Result<Value, Option<Failure>> {
     let mut waited = Duration::ZERO;
     let step = Duration::from_millis(400);
     let cpu_before = crate::lspc::thread_cpu_seconds(&c.thread_tag);
@@ -152,10 +152,28 @@ pub fn await_or_diagnose(c: &mut Client, id: i64, what: &str, patience: Duration
                 }
                 let states = if blocked { crate::lspc::thread_states(&c.thread_tag) } else { states };
                 if blocked && waited >= Duration::from_millis(800) {
-                    let dump: Vec<String> = states.iter().map(|t| format!("tid {} state {} syscall {} wchan {}", t.tid, t.state, t.syscall, t.wchan.trim())).collect();
+                    let mut dump: Vec<String> = states.iter().map(|t| format!("tid {} state {} syscall {} wchan {}", t.tid, t.state, t.syscall, t.wchan.trim())).collect();
+                    {
+                        let st = sched.st.lock().unwrap();
+                        dump.insert(0, format!("tasks spawned {} ended {}, at least {expected_spawns} called for", st.spawned, st.ended));
+                    }
+                    // nothing alive and less spawned than the messages call for: a request was never handed to a
+                    // task. With as many requests in flight as the request limiter admits (async-lsp's
+                    // ConcurrencyLayer, limit = available parallelism) that is the listed finding; below the limit
+                    // it is something else
+                    let (alive, short) = {
+                        let st = sched.st.lock().unwrap();
+                        (st.spawned > st.ended, st.spawned < expected_spawns)
+                    };
+                    let limit = std::thread::available_parallelism().map(|n| n.get() as u64).unwrap_or(1);
+                    let sig = if !alive && short {
+                        if requests_in_flight >= limit { "C08.request-not-dispatched:at-concurrency-limit" } else { "C08.request-not-dispatched" }
+                    } else {
+                        "C08.deadlock"
+                    };
                     return Err(Some(Failure::new(
                         "C08.deadlock",
-                        "C08.deadlock",
+                        sig,
                         format!("no response to {what} after {:?}; no server thread has computed since (processor time unchanged), those that wait for a lock were never scheduled, the others wait for input: {dump:?}", waited),
                     )));
                 }
@@ -311,8 +329,9 @@ fn run_burst(case: &Case) -> Verdict {
         outstanding.push((id, format!("{m} (barrier)")));
     }
     let mut verdict = Verdict::Pass { nontrivial: concurrent && !outstanding.is_empty(), labels: vec![] };
+    let requests_in_flight = outstanding.len() as u64;
     for (id, what) in outstanding {
-        match await_or_diagnose(&mut c, id, &what, Duration::from_secs(30), &sched, expected_spawns) {
+        match await_or_diagnose(&mut c, id, &what, Duration::from_secs(30), &sched, expected_spawns, requests_in_flight) {
             Ok(v) => {
                 if v.get("error").is_some() && v["error"]["code"].as_i64() != Some(-32800) {
                     // an error response is still a response; internal errors are C03's business
@@ -514,7 +533,7 @@ pub fn run_schedule(handler: &str, requests: &[String], choices: &[String]) -> R
     // at least: the first didOpen, the change N0, every request and the barrier
     let expected_spawns = 2 + ids.len() as u64;
     for (id, what) in ids {
-        match await_or_diagnose(&mut c, id, &what, Duration::from_secs(20), &sched, expected_spawns) {
+        match await_or_diagnose(&mut c, id, &what, Duration::from_secs(20), &sched, expected_spawns, 0) {
             Ok(_) => {}
             Err(Some(f)) => return finish(c, steps, Outcome::Deadlock(f.detail), conc),
             Err(None) => return finish(c, steps, Outcome::Inconclusive(format!("no answer to {what}")), conc),
@@ -751,6 +770,41 @@ impl Property for C08 {
         let _stdout = StdoutHeld::new();
         match case["kind"].as_str() {
             Some("sched") => run_sched_case(case),
+            // the repro of a finding that needs a loaded machine (a wake-up lost in a window of a few
+            // instructions): the case is run while twice as many threads as processors spin, a few times
+            Some("burst") if case["stress"].as_bool() == Some(true) => {
+                let stop = std::sync::Arc::new(std::sync::atomic::AtomicBool::new(false));
+                let n = 2 * std::thread::available_parallelism().map(|n| n.get()).unwrap_or(8);
+                let spinners: Vec<_> = (0..n)
+                    .map(|_| {
+                        let stop = stop.clone();
+                        std::thread::spawn(move || {
+                            let mut x = 0u64;
+                            while !stop.load(std::sync::atomic::Ordering::Relaxed) {
+                                x = x.wrapping_mul(6364136223846793005).wrapping_add(1);
+                                std::hint::black_box(x);
+                            }
+                        })
+                    })
+                    .collect();
+                // (as many requests at once as the limiter admits, and one more)
+                let limit = std::thread::available_parallelism().map(|n| n.get()).unwrap_or(1);
+                let mut ops = vec![json!(["open", 0])];
+                ops.extend((0..=limit).map(|_| json!(["req", 0, "documentSymbol"])));
+                let case = &json!({"kind": "burst", "classes": case["classes"].as_u64().unwrap_or(0), "ops": ops});
+                let mut v = Verdict::pass(false);
+                for _ in 0..6 {
+                    v = run_burst(case);
+                    if matches!(v, Verdict::Fail(_)) {
+                        break;
+                    }
+                }
+                stop.store(true, std::sync::atomic::Ordering::Relaxed);
+                for s in spinners {
+                    let _ = s.join();
+                }
+                v
+            }
             Some("burst") => run_burst(case),
             _ => Verdict::Skip("malformed-case"),
         }
